@@ -1,4 +1,5 @@
 import Toq.Proofs.Sep
+import Toq.Proofs.PartialTranspose
 /-!
 # C15 — PPT and separability verdicts are sound
 
@@ -8,6 +9,13 @@ finite mixture `Σ_k w_k (a_k a_kᴴ) ⊗ (b_k b_kᴴ)` with `w_k ≥ 0`.  The e
 (`Toq/Model/Sep.lean`) works on exact matrices over `ℚ[i]` with the flat index `a * dB + b` that toqito
 uses; `unflat` reads a flat matrix as a pair-indexed one and `EMat.toM` is the complex matrix denoted by
 an exact matrix.  "`λ_min(A) ≥ c`" is expressed as `(A − c·1).PosSemidef`.
+
+The second half of the file covers the NECESSARY criteria that `is_separable` evaluates after the PPT test and that
+make it answer "entangled": realignment (`realignment_criterion`, `_svd`, `realignment_zhang_norm`), the bound of
+Zhang et al. (`zhang_criterion`, `_svd`, `zhang_products`), and the positive-map criterion
+(`positive_map_criterion`) with the transposition, reduction and Breuer–Hall maps proved positive
+(`transposition_instance`, `reduction_criterion`, `breuer_hall_criterion`) and the Ha–Kye qutrit maps identified
+(`ha_maps_branch`; their positivity is a cited hypothesis).  Each says: no mixture of product states fails the test.
 
 What the correspondence harness uses: the float matrix handed to toqito has an exact dyadic image `X`;
 certificates `(c, L)` and `v` for `pt sys X` are checked by the compiled `checkLamMinLower/Upper`, and
@@ -344,5 +352,234 @@ example : inSepBallMirror (n := 4) (1/1000000) (r4 fun i j => if i = j then (if 
   decide +kernel
 
 end Examples
+
+/-! ## Necessary criteria evaluated after the PPT test: no separable state is rejected by them
+
+`IsContr W` says `1 − WᴴW ⪰ 0` (operator norm at most one, `W` rectangular).  The trace (nuclear) norm is used in
+its dual form `‖M‖₁ = sup { Re tr(Wᴴ M) : IsContr W }`: "`‖M‖₁ ≤ c`" is stated as
+"`Re tr(Wᴴ M) ≤ c` for every contraction `W`", and — matching what `numpy.linalg.norm(·, "nuc")` computes — as
+"`Σ_i σ_i ≤ c` for every singular value decomposition `M = U diag(σ) Vᴴ`" (`UᴴU = 1`, `VᴴV = 1`).
+`realignM X ((a,a'),(b,b')) = X ((a,b),(a',b'))`, `ptrB`/`ptrA` are the partial traces `ρ_A`/`ρ_B`,
+`frobSq` is the squared Frobenius norm, `applyB Λ = id ⊗ Λ`, `applyA Λ = Λ ⊗ id`, `choiMap J` is the linear map
+whose Choi matrix (toqito convention `J = Σ_ij E_ij ⊗ Φ(E_ij)`) is `J`. -/
+
+/-- **Bridge for the realignment.**  (1) The line-by-line model of `toqito.channels.realignment` (C03,
+`Toq.PartialOps.realignment`, called with `dim = [dA, dB]` as `is_separable` does) has the entry
+`X[a·dB + b, a'·dB + b']` at row `a·dA + a'`, column `b·dB + b'`; (2) the executable `realignE` on exact matrices,
+read on pair indices, is `realignM` of the pair-indexed operator. -/
+theorem realign_exec_eq_spec {dA dB : Nat} :
+    (∀ (X : Nat → Nat → ℂ) (a a' : Fin dA) (b b' : Fin dB),
+      Toq.PartialOps.realignment X dA dB dA dB (a.val * dA + a'.val) (b.val * dB + b'.val)
+        = X (a.val * dB + b.val) (a'.val * dB + b'.val)) ∧
+    (∀ X : EMat (dA * dB) (dA * dB),
+      (realignE X).toM.submatrix (pairEquiv dA dA) (pairEquiv dB dB) = realignM (unflat X.toM)) := by
+  refine ⟨fun X a a' b b' => ?_, realignE_toM⟩
+  have hA : 0 < dA := Nat.lt_of_le_of_lt (Nat.zero_le _) a.isLt
+  have hB : 0 < dB := Nat.lt_of_le_of_lt (Nat.zero_le _) b.isLt
+  rw [Toq.PartialOps.realignment_eq_spec X dA dB dA dB hA hB hA hB _ _
+    (Toq.Sep.pair_lt a.isLt a'.isLt) (Toq.Sep.pair_lt b.isLt b'.isLt)]
+  unfold Toq.Spec.realignSpec
+  have e1 : (a.val * dA + a'.val) / dA = a.val := by
+    rw [Nat.add_comm, Nat.add_mul_div_right _ _ hA, Nat.div_eq_of_lt a'.isLt, Nat.zero_add]
+  have e2 : (a.val * dA + a'.val) % dA = a'.val := by
+    rw [Nat.add_comm, Nat.add_mul_mod_self_right, Nat.mod_eq_of_lt a'.isLt]
+  have e3 : (b.val * dB + b'.val) / dB = b.val := by
+    rw [Nat.add_comm, Nat.add_mul_div_right _ _ hB, Nat.div_eq_of_lt b'.isLt, Nat.zero_add]
+  have e4 : (b.val * dB + b'.val) % dB = b'.val := by
+    rw [Nat.add_comm, Nat.add_mul_mod_self_right, Nat.mod_eq_of_lt b'.isLt]
+  rw [e1, e2, e3, e4]
+
+/-- **Realignment (CCNR) criterion** (Chen–Wu, Rudolph).  For every mixture of product states `ρ`
+(any local index types, in particular all local dimensions; weights `≥ 0`, not necessarily normalised) and every
+contraction `W`: `Re tr(Wᴴ R(ρ)) ≤ tr ρ`, i.e. `‖R(ρ)‖₁ ≤ tr ρ`.  Consequently a state with
+`Re tr(Wᴴ R(ρ)) > tr ρ` for some contraction `W` is not a mixture of product states. -/
+theorem realignment_criterion {m n : Type*} [Fintype m] [Fintype n] [DecidableEq n]
+    (ρ : Matrix (m × n) (m × n) ℂ) (W : Matrix (m × m) (n × n) ℂ) (hW : IsContr W) :
+    (IsSepMix ρ → (Wᴴ * realignM ρ).trace.re ≤ ρ.trace.re) ∧
+    (ρ.trace.re < (Wᴴ * realignM ρ).trace.re → ¬ IsSepMix ρ) :=
+  ⟨fun h => h.re_trace_realign_le hW, fun hlt h => absurd (h.re_trace_realign_le hW) (not_le.mpr hlt)⟩
+
+/-- **The test `trace_norm(realignment(ρ)) > 1 + tol` cannot fire on a separable state.**  Whatever singular value
+decomposition `R(ρ) = U diag(σ) Vᴴ` (`UᴴU = 1`, `VᴴV = 1`) of the realigned mixture of product states is taken,
+the sum of the singular values is at most `tr ρ` (`= 1` after the normalisation done by `is_separable`). -/
+theorem realignment_criterion_svd {m n r : Type*} [Fintype m] [Fintype n] [Fintype r] [DecidableEq n]
+    [DecidableEq r] (ρ : Matrix (m × n) (m × n) ℂ) (h : IsSepMix ρ) (U : Matrix (m × m) r ℂ)
+    (V : Matrix (n × n) r ℂ) (σ : r → ℝ) (hU : Uᴴ * U = 1) (hV : Vᴴ * V = 1)
+    (hsvd : realignM ρ = U * diagonal (fun i => (σ i : ℂ)) * Vᴴ) : ∑ i, σ i ≤ ρ.trace.re := by
+  have h1 := h.re_trace_realign_le (isContr_mul_conjTranspose U V hU hV)
+  rwa [hsvd, trace_polar_mul_svd U V σ hU hV, Complex.ofReal_re] at h1
+
+/-- **Zhang–Zhang–Zhang–Guo bound** ("beyond realignment", the second test of the cascade).  For every mixture
+of product states `ρ` with `tr ρ = 1`, marginals `ρ_A = tr_B ρ`, `ρ_B = tr_A ρ`: both `1 − tr ρ_A²` and
+`1 − tr ρ_B²` are non-negative (so the `max(0, ·)` in the code is inactive), and for every contraction `W`
+`Re tr(Wᴴ R(ρ − ρ_A ⊗ ρ_B)) ≤ √((1 − tr ρ_A²)(1 − tr ρ_B²))`, i.e.
+`‖R(ρ − ρ_A ⊗ ρ_B)‖₁ ≤ √((1 − tr ρ_A²)(1 − tr ρ_B²))`; the purities are in the form the code computes,
+`Re tr(ρ_A ρ_A)`. -/
+theorem zhang_criterion {m n : Type*} [Fintype m] [Fintype n] [DecidableEq n]
+    (ρ : Matrix (m × n) (m × n) ℂ) (h : IsSepMix ρ) (ht : ρ.trace = 1) :
+    0 ≤ 1 - (ptrB ρ * ptrB ρ).trace.re ∧ 0 ≤ 1 - (ptrA ρ * ptrA ρ).trace.re ∧
+    ∀ W : Matrix (m × m) (n × n) ℂ, IsContr W →
+      (Wᴴ * realignM (ρ - ptrB ρ ⊗ₖ ptrA ρ)).trace.re
+        ≤ √((1 - (ptrB ρ * ptrB ρ).trace.re) * (1 - (ptrA ρ * ptrA ρ).trace.re)) := by
+  have hH := h.posSemidef.1
+  rw [re_trace_mul_self_of_isHermitian (ptrB_isHermitian hH),
+    re_trace_mul_self_of_isHermitian (ptrA_isHermitian hH)]
+  have h0 := h.zhang ht (W := 0) IsContr.zero
+  exact ⟨h0.1, h0.2.1, fun W hW => (h.zhang ht hW).2.2⟩
+
+/-- **The test `trace_norm(realignment(ρ − ρ_A ⊗ ρ_B)) > tol + sqrt(…)` cannot fire on a separable state**: for
+every singular value decomposition of `R(ρ − ρ_A ⊗ ρ_B)` the sum of the singular values is at most
+`√((1 − tr ρ_A²)(1 − tr ρ_B²))`. -/
+theorem zhang_criterion_svd {m n r : Type*} [Fintype m] [Fintype n] [Fintype r] [DecidableEq n]
+    [DecidableEq r] (ρ : Matrix (m × n) (m × n) ℂ) (h : IsSepMix ρ) (ht : ρ.trace = 1)
+    (U : Matrix (m × m) r ℂ) (V : Matrix (n × n) r ℂ) (σ : r → ℝ) (hU : Uᴴ * U = 1) (hV : Vᴴ * V = 1)
+    (hsvd : realignM (ρ - ptrB ρ ⊗ₖ ptrA ρ) = U * diagonal (fun i => (σ i : ℂ)) * Vᴴ) :
+    ∑ i, σ i ≤ √((1 - (ptrB ρ * ptrB ρ).trace.re) * (1 - (ptrA ρ * ptrA ρ).trace.re)) := by
+  have h1 := (zhang_criterion ρ h ht).2.2 _ (isContr_mul_conjTranspose U V hU hV)
+  rwa [hsvd, trace_polar_mul_svd U V σ hU hV, Complex.ofReal_re] at h1
+
+/-- The same bound for mixtures `Σ_k p_k α_k ⊗ β_k` of products of arbitrary normalised local operators
+(`tr α_k = tr β_k = 1`, `‖α_k‖_F, ‖β_k‖_F ≤ 1`: every density operator qualifies), with `p` a probability vector:
+the marginals are `Σ_k p_k α_k`, `Σ_k p_k β_k` and
+`‖R(ρ − ρ_A ⊗ ρ_B)‖₁ ≤ √((1 − ‖ρ_A‖_F²)(1 − ‖ρ_B‖_F²))`. -/
+theorem zhang_products {m n K : Type*} [Fintype m] [Fintype n] [DecidableEq n] (s : Finset K) (p : K → ℝ)
+    (α : K → Matrix m m ℂ) (β : K → Matrix n n ℂ) (hp : ∀ k ∈ s, 0 ≤ p k) (hsum : ∑ k ∈ s, p k = 1)
+    (htα : ∀ k ∈ s, (α k).trace = 1) (htβ : ∀ k ∈ s, (β k).trace = 1)
+    (hfα : ∀ k ∈ s, frobSq (α k) ≤ 1) (hfβ : ∀ k ∈ s, frobSq (β k) ≤ 1)
+    (W : Matrix (m × m) (n × n) ℂ) (hW : IsContr W) :
+    let ρ := ∑ k ∈ s, (p k : ℂ) • (α k ⊗ₖ β k)
+    ptrB ρ = ∑ k ∈ s, (p k : ℂ) • α k ∧ ptrA ρ = ∑ k ∈ s, (p k : ℂ) • β k ∧
+    0 ≤ 1 - frobSq (ptrB ρ) ∧ 0 ≤ 1 - frobSq (ptrA ρ) ∧
+    (Wᴴ * realignM (ρ - ptrB ρ ⊗ₖ ptrA ρ)).trace.re
+      ≤ √((1 - frobSq (ptrB ρ)) * (1 - frobSq (ptrA ρ))) :=
+  zhang_general s p α β hp hsum htα htβ hfα hfβ hW _ rfl
+
+/-- **Partial traces, executable = spec**: `ptrBE`/`ptrAE` on the flat index compute `ρ_A`/`ρ_B`, and the partial
+traces preserve the trace. -/
+theorem ptrace_exec_eq_spec {dA dB : Nat} (X : EMat (dA * dB) (dA * dB)) :
+    (ptrBE X).toM = ptrB (unflat X.toM) ∧ (ptrAE X).toM = ptrA (unflat X.toM) ∧
+    (ptrB (unflat X.toM)).trace = (unflat X.toM).trace ∧ (ptrA (unflat X.toM)).trace = (unflat X.toM).trace :=
+  ⟨ptrBE_toM X, ptrAE_toM X, trace_ptrB _, trace_ptrA _⟩
+
+/-- **Positive-map criterion** (Horodecki).  If the linear map `Λ` sends every `b bᴴ` to a positive semidefinite
+operator (every positive map does), then `(id ⊗ Λ)(ρ) ⪰ 0` and, for `Λ` acting on the first party,
+`(Λ ⊗ id)(ρ) ⪰ 0` for every mixture of product states `ρ`: a test
+`not is_positive_semidefinite(partial_channel(ρ, J, sys, dim))` with the Choi matrix `J` of such a map cannot fire
+on a separable state. -/
+theorem positive_map_criterion {m n k : Type*} [Finite m] [Finite n] [Finite k]
+    (ρ : Matrix (m × n) (m × n) ℂ) (h : IsSepMix ρ) :
+    (∀ Λ : Matrix n n ℂ →ₗ[ℂ] Matrix k k ℂ, IsPosOnPure Λ → (applyB Λ ρ).PosSemidef) ∧
+    (∀ Λ : Matrix m m ℂ →ₗ[ℂ] Matrix k k ℂ, IsPosOnPure Λ → (applyA Λ ρ).PosSemidef) :=
+  ⟨fun _ hΛ => h.applyB_posSemidef hΛ, fun _ hΛ => h.applyA_posSemidef hΛ⟩
+
+/-- **`partial_channel` with a Choi matrix, executable = spec**: on the flat indices, `choiApplyB J X` is
+`(id ⊗ Φ_J)(X)` and `choiApplyA J X` is `(Φ_J ⊗ id)(X)`, where `Φ_J(Y) = Σ_kl Y_kl J[(k,·),(l,·)]` is the map with
+Choi matrix `J`. -/
+theorem partial_channel_exec_eq_spec {dA dB dO : Nat} (X : EMat (dA * dB) (dA * dB)) :
+    (∀ J : EMat (dB * dO) (dB * dO),
+      unflat (choiApplyB J X).toM = applyB (choiMap (unflat J.toM)) (unflat X.toM)) ∧
+    (∀ J : EMat (dA * dO) (dA * dO),
+      unflat (choiApplyA J X).toM = applyA (choiMap (unflat J.toM)) (unflat X.toM)) :=
+  ⟨fun J => choiApplyB_toM J X, fun J => choiApplyA_toM J X⟩
+
+/-- **Transposition is a positive map and `id ⊗ T` is the partial transpose**: Peres' criterion is the instance
+`Λ = T` of the positive-map criterion. -/
+theorem transposition_instance {m n : Type*} [Finite n] (X : Matrix (m × n) (m × n) ℂ) :
+    IsPosOnPure (transposeL (n := n)) ∧ applyB transposeL X = ptBM X :=
+  ⟨transposeL_pos, rfl⟩
+
+/-- **Reduction criterion** (Horodecki, Cerf–Adami–Gingrich).  The reduction map `X ↦ tr(X)·1 − X` is positive on
+pure states (Cauchy–Schwarz), `(id ⊗ R)(ρ) = ρ_A ⊗ 1 − ρ`, `(R ⊗ id)(ρ) = 1 ⊗ ρ_B − ρ`, and both are positive
+semidefinite for every mixture of product states. -/
+theorem reduction_criterion {m n : Type*} [Fintype m] [Fintype n] [DecidableEq m] [DecidableEq n]
+    (ρ : Matrix (m × n) (m × n) ℂ) (h : IsSepMix ρ) :
+    (ptrB ρ ⊗ₖ (1 : Matrix n n ℂ) - ρ).PosSemidef ∧ ((1 : Matrix m m ℂ) ⊗ₖ ptrA ρ - ρ).PosSemidef := by
+  rw [← applyB_reductionL, ← applyA_reductionL]
+  exact ⟨h.applyB_posSemidef reductionL_pos, h.applyA_posSemidef reductionL_pos⟩
+
+/-- **Breuer–Hall criterion.**  For every antisymmetric (`Uᵀ = −U`) contraction `U` — in particular every
+antisymmetric unitary, which exists in even dimension — the map `X ↦ tr(X)·1 − X − U Xᵀ Uᴴ` is positive on pure
+states (`U b̄ ⟂ b`, `‖U b̄‖ ≤ ‖b‖`, Bessel), hence applying it to either party of a mixture of product states gives
+a positive semidefinite operator. -/
+theorem breuer_hall_criterion {m n : Type*} [Fintype m] [Fintype n] [DecidableEq m] [DecidableEq n]
+    (ρ : Matrix (m × n) (m × n) ℂ) (h : IsSepMix ρ) :
+    (∀ U : Matrix n n ℂ, Uᵀ = -U → IsContr U →
+      IsPosOnPure (breuerHallL U) ∧ (applyB (breuerHallL U) ρ).PosSemidef) ∧
+    (∀ U : Matrix m m ℂ, Uᵀ = -U → IsContr U →
+      IsPosOnPure (breuerHallL U) ∧ (applyA (breuerHallL U) ρ).PosSemidef) :=
+  ⟨fun _ ha hU => ⟨breuerHallL_pos ha hU, h.applyB_posSemidef (breuerHallL_pos ha hU)⟩,
+   fun _ ha hU => ⟨breuerHallL_pos ha hU, h.applyA_posSemidef (breuerHallL_pos ha hU)⟩⟩
+
+/-- **The qutrit maps of the cascade.**  The Choi matrix `diag(a+1, c, b, b, a+1, c, c, b, a+1) − |Ω⟩⟨Ω|` that
+`is_separable` hands to `partial_channel` is the Choi matrix of the generalised Choi map
+`Φ[a,b,c](X) = diag(a x₀₀ + b x₁₁ + c x₂₂, a x₁₁ + b x₂₂ + c x₀₀, a x₂₂ + b x₀₀ + c x₁₁) − offdiag(X)`; if that map is
+positive on pure states (Cho–Kye–Lee: `a + b + c ≥ 2` and `bc ≥ (1 − a)²` for `0 ≤ a ≤ 1`, which the parameters
+`a = (1−t)²/(1−t+t²)`, `b = t²/(1−t+t²)`, `c = 1/(1−t+t²)` of the code satisfy with equality — cited, a hypothesis
+here), the test built from it accepts every mixture of product states on `3 ⊗ 3`. -/
+theorem ha_maps_branch (a b c : ℝ) (ρ : Matrix (Fin 3 × Fin 3) (Fin 3 × Fin 3) ℂ) (h : IsSepMix ρ) :
+    (∀ (X : Matrix (Fin 3) (Fin 3) ℂ) (k l : Fin 3), choiMap (haChoi a b c) X k l
+      = (if k = l then (a : ℂ) * X k k + b * X (k + 1) (k + 1) + c * X (k + 2) (k + 2) else 0)
+        - (if k = l then 0 else X k l)) ∧
+    (IsPosOnPure (choiMap (haChoi a b c)) → (applyB (choiMap (haChoi a b c)) ρ).PosSemidef) :=
+  ⟨choiMap_haChoi a b c, fun hΛ => h.applyB_posSemidef hΛ⟩
+
+/-- **The trace norm of the statements above is the one numpy computes.**  `nucNorm M = sup { Re tr(Wᴴ M) : 1 − WᴴW ⪰ 0 }`
+equals `Σ_i σ_i` for EVERY singular value decomposition `M = U diag(σ) Vᴴ` (`UᴴU = 1`, `VᴴV = 1`, `σ ≥ 0`), and a bound
+`Re tr(Wᴴ M) ≤ c` for all contractions is a bound `nucNorm M ≤ c`. -/
+theorem nucNorm_spec {ι κ r : Type*} [Fintype ι] [Fintype κ] [Fintype r] [DecidableEq κ] [DecidableEq r]
+    (U : Matrix ι r ℂ) (V : Matrix κ r ℂ) (σ : r → ℝ) (hU : Uᴴ * U = 1) (hV : Vᴴ * V = 1)
+    (hσ : ∀ i, 0 ≤ σ i) :
+    nucNorm (U * diagonal (fun i => (σ i : ℂ)) * Vᴴ) = ∑ i, σ i ∧
+    ∀ (M : Matrix ι κ ℂ) (c : ℝ), (∀ W : Matrix ι κ ℂ, IsContr W → (Wᴴ * M).trace.re ≤ c) → nucNorm M ≤ c :=
+  ⟨nucNorm_eq_sum_of_svd U V σ hU hV hσ, fun _ _ h => nucNorm_le h⟩
+
+/-- **Realignment and Zhang criteria in norm form**: `‖R(ρ)‖₁ ≤ tr ρ` for every mixture of product states, and
+`‖R(ρ − ρ_A ⊗ ρ_B)‖₁ ≤ √((1 − tr ρ_A²)(1 − tr ρ_B²))` when `tr ρ = 1`. -/
+theorem realignment_zhang_norm {m n : Type*} [Fintype m] [Fintype n] [DecidableEq n]
+    (ρ : Matrix (m × n) (m × n) ℂ) (h : IsSepMix ρ) :
+    nucNorm (realignM ρ) ≤ ρ.trace.re ∧
+    (ρ.trace = 1 → nucNorm (realignM (ρ - ptrB ρ ⊗ₖ ptrA ρ))
+      ≤ √((1 - (ptrB ρ * ptrB ρ).trace.re) * (1 - (ptrA ρ * ptrA ρ).trace.re))) :=
+  ⟨nucNorm_le fun _ hW => h.re_trace_realign_le hW,
+   fun ht => nucNorm_le fun W hW => (zhang_criterion ρ h ht).2.2 W hW⟩
+
+/-! ### The new hypotheses are satisfiable; the criteria are not vacuous -/
+
+section Examples2
+
+/-- the two-qubit Bell state `|Φ⁺⟩⟨Φ⁺|` on pair indices -/
+private noncomputable def bell : Matrix (Fin 2 × Fin 2) (Fin 2 × Fin 2) ℂ :=
+  fun i j => if i.1 = i.2 ∧ j.1 = j.2 then 1 / 2 else 0
+
+/-- the identity is a contraction; pairing `R(|Φ⁺⟩⟨Φ⁺|) = 1/2` with it gives `2 > 1 = tr`: the realignment
+criterion detects the Bell state -/
+example : ¬ IsSepMix bell := by
+  have hW : IsContr (1 : Matrix (Fin 2 × Fin 2) (Fin 2 × Fin 2) ℂ) := by
+    unfold IsContr; simpa using PosSemidef.zero
+  refine (realignment_criterion bell 1 hW).2 ?_
+  simp [bell, realignM, Matrix.trace, Fintype.sum_prod_type]
+  norm_num
+
+/-- an antisymmetric unitary in dimension two -/
+example : (!![0, 1; -1, 0] : Matrix (Fin 2) (Fin 2) ℂ)ᵀ = -!![0, 1; -1, 0] ∧
+    IsContr (!![0, 1; -1, 0] : Matrix (Fin 2) (Fin 2) ℂ) := by
+  refine ⟨by ext i j; fin_cases i <;> fin_cases j <;> simp, ?_⟩
+  unfold IsContr
+  have : (1 : Matrix (Fin 2) (Fin 2) ℂ) - (!![0, 1; -1, 0] : Matrix (Fin 2) (Fin 2) ℂ)ᴴ * !![0, 1; -1, 0] = 0 := by
+    ext i j; fin_cases i <;> fin_cases j <;> simp [Matrix.mul_apply, Fin.sum_univ_two]
+  rw [this]; exact PosSemidef.zero
+
+private def x23 : EMat (2 * 3) (2 * 3) := EMat.ofFn fun i j => ⟨(10 * i.val + j.val : Nat), 0⟩
+
+/-- the executable realignment of the `6 × 6` matrix with entry `10 i + j` (dims `2 ⊗ 3`): a `4 × 9` matrix whose
+row `a·2 + a'` lists the `3 × 3` block `(a, a')` in row-major order -/
+example : (List.finRange 4).map (fun i => (List.finRange 9).map fun j => ((realignE x23).get i j).re)
+    = [[0, 1, 2, 10, 11, 12, 20, 21, 22], [3, 4, 5, 13, 14, 15, 23, 24, 25],
+       [30, 31, 32, 40, 41, 42, 50, 51, 52], [33, 34, 35, 43, 44, 45, 53, 54, 55]] := by decide +kernel
+
+example : (List.finRange 2).map (fun i => (List.finRange 2).map fun j => ((ptrBE x23).get i j).re)
+    = [[0 + 11 + 22, 3 + 14 + 25], [30 + 41 + 52, 33 + 44 + 55]] := by decide +kernel
+
+end Examples2
 
 end Toq.C15
